@@ -100,8 +100,10 @@ class Ctx:
         cov.update(self.extra)
         ev = dict(property_id=self.pid, tier=self.tier, seed=int(self.seed), level=self.level, coverage=cov,
                   assumptions=self.assumptions, wall_s=round(wall, 2), violations=len(real))
-        os.makedirs(os.path.join(ROOT, 'evidence'), exist_ok=True)
-        with open(os.path.join(ROOT, 'evidence', self.pid + '.json'), 'w') as f:
+        # drivers outside the listed properties (X..) keep their evidence apart from evidence/<property id>.json
+        edir = os.path.join(ROOT, 'evidence' if self.pid.startswith('C') else 'evidence_extra')
+        os.makedirs(edir, exist_ok=True)
+        with open(os.path.join(edir, self.pid + '.json'), 'w') as f:
             json.dump(ev, f, indent=1, default=str)
         print('%s tier=%s seed=%d: states=%d transitions=%d traces=%d evaluations=%d distinct=%d violations=%d known=%d wall=%.1fs'
               % (self.pid, self.tier, self.seed, self.states, self.transitions, self.traces, self.evaluations,
